@@ -96,4 +96,482 @@ theorem sampleSpan_pos_of_gt {f t : ℝ} (h : t < f) (hn : ¬ ∃ n : ℤ, f - t
     refine ⟨-⌊(t - f) / (2 * π)⌋, ?_⟩
     push_cast; linarith
 
+/-- at `ℝ`: the draw is used when the span is positive (this covers `f < t`) -/
+theorem randomAngle_of_pos {f t : ℝ} (u : ℝ) (h : 0 < sampleSpan f t) : randomAngle f t u = f + u := by
+  unfold randomAngle
+  have h' : sampleSpan f t > (@OfNat.ofNat ℝ 0 instOfNatOpw) := by rw [lit0_real]; exact h
+  split_ifs <;> rfl
+
+theorem randomAngle_of_not_pos {f t : ℝ} (u : ℝ) (h1 : ¬ f < t) (h2 : ¬ 0 < sampleSpan f t) :
+    randomAngle f t u = f := by
+  unfold randomAngle
+  have h' : ¬ sampleSpan f t > (@OfNat.ofNat ℝ 0 instOfNatOpw) := by rw [lit0_real]; exact h2
+  rw [if_neg h1, if_neg h']
+
+/-! ### Vectors: dot, cross, normalisation -/
+
+theorem V3.dot_comm (a b : V3 ℝ) : a.dot b = b.dot a := by
+  simp only [V3.dot]; ring
+
+theorem V3.dot_cross_self_left (a b : V3 ℝ) : a.dot (a.cross b) = 0 := by
+  simp only [V3.dot, V3.cross]; ring
+
+theorem V3.dot_cross_self_right (a b : V3 ℝ) : b.dot (a.cross b) = 0 := by
+  simp only [V3.dot, V3.cross]; ring
+
+/-- Lagrange's identity -/
+theorem V3.normSq_cross (a b : V3 ℝ) :
+    (a.cross b).normSq = a.normSq * b.normSq - a.dot b * a.dot b := by
+  simp only [V3.normSq, V3.dot, V3.cross]; ring
+
+theorem V3.norm_mul_self (a : V3 ℝ) : a.norm * a.norm = a.normSq :=
+  Real.mul_self_sqrt (V3.normSq_nonneg a)
+
+theorem V3.norm_nonneg (a : V3 ℝ) : 0 ≤ a.norm := Real.sqrt_nonneg _
+
+theorem V3.norm_eq_zero_iff (a : V3 ℝ) : a.norm = 0 ↔ a.normSq = 0 := by
+  rw [V3.norm_eq, Real.sqrt_eq_zero (V3.normSq_nonneg a)]
+
+theorem V3.normSq_eq_zero_iff (a : V3 ℝ) : a.normSq = 0 ↔ a = V3.zero := by
+  constructor
+  · intro h
+    rw [V3.normSq_eq] at h
+    have hx : a.x * a.x = 0 := by nlinarith [mul_self_nonneg a.x, mul_self_nonneg a.y, mul_self_nonneg a.z]
+    have hy : a.y * a.y = 0 := by nlinarith [mul_self_nonneg a.x, mul_self_nonneg a.y, mul_self_nonneg a.z]
+    have hz : a.z * a.z = 0 := by nlinarith [mul_self_nonneg a.x, mul_self_nonneg a.y, mul_self_nonneg a.z]
+    apply V3.ext' <;> simp only [V3.zero, lit0_real]
+    · exact mul_self_eq_zero.mp hx
+    · exact mul_self_eq_zero.mp hy
+    · exact mul_self_eq_zero.mp hz
+  · rintro rfl
+    simp only [V3.normSq, V3.dot, V3.zero, lit0_real]; ring
+
+/-- a non-zero cross product needs a non-zero first factor … -/
+theorem V3.norm_left_ne_zero_of_cross {a b : V3 ℝ} (h : (a.cross b).norm ≠ 0) : a.norm ≠ 0 := by
+  intro ha
+  apply h
+  rw [V3.norm_eq_zero_iff] at ha ⊢
+  have hl := V3.normSq_cross a b
+  rw [ha] at hl
+  nlinarith [V3.normSq_nonneg (a.cross b), mul_self_nonneg (a.dot b)]
+
+/-- … and a non-zero second factor -/
+theorem V3.norm_right_ne_zero_of_cross {a b : V3 ℝ} (h : (a.cross b).norm ≠ 0) : b.norm ≠ 0 := by
+  intro hb
+  apply h
+  rw [V3.norm_eq_zero_iff] at hb ⊢
+  have hl := V3.normSq_cross a b
+  rw [hb] at hl
+  nlinarith [V3.normSq_nonneg (a.cross b), mul_self_nonneg (a.dot b)]
+
+theorem V3.dot_normalize_self {a : V3 ℝ} (h : a.norm ≠ 0) : a.normalize.dot a.normalize = 1 := by
+  have hn := V3.norm_mul_self a
+  rw [V3.normSq_eq] at hn
+  simp only [V3.normalize, V3.divs, V3.dot]
+  field_simp
+  linear_combination -hn
+
+theorem V3.dot_normalize_normalize (a b : V3 ℝ) :
+    a.normalize.dot b.normalize = a.dot b / (a.norm * b.norm) := by
+  simp only [V3.normalize, V3.divs, V3.dot]; ring
+
+/-! ### Rotation matrices from orthonormal columns -/
+
+/-- `(M a) × (M b) = cof(M) (a × b)` for every matrix -/
+theorem M3.cross_mulVec (m : M3 ℝ) (a b : V3 ℝ) :
+    (m.mulVec a).cross (m.mulVec b) = m.cof.mulVec (a.cross b) := by
+  apply V3.ext' <;> simp only [M3.mulVec, V3.cross, M3.cof] <;> ring
+
+theorem M3.mul_ofColumns (m : M3 ℝ) (a b c : V3 ℝ) :
+    m.mul (M3.ofColumns a b c) = M3.ofColumns (m.mulVec a) (m.mulVec b) (m.mulVec c) := by
+  apply M3.ext' <;> simp only [M3.mul, M3.ofColumns, M3.mulVec]
+
+/-- orthogonal columns and `cof m = m` make a rotation (rows are then orthonormal too) -/
+theorem isRot_of_tm_cof {m : M3 ℝ} (htm : m.transpose.mul m = M3.one) (hcof : m.cof = m) :
+    IsRot m := by
+  have c00 := congrArg M3.m00 htm
+  have c11 := congrArg M3.m11 htm
+  have c22 := congrArg M3.m22 htm
+  simp only [M3.mul, M3.transpose, M3.one, lit0, lit1] at c00 c11 c22
+  have k00 := congrArg M3.m00 hcof
+  have k01 := congrArg M3.m01 hcof
+  have k02 := congrArg M3.m02 hcof
+  have k10 := congrArg M3.m10 hcof
+  have k11 := congrArg M3.m11 hcof
+  have k12 := congrArg M3.m12 hcof
+  have k20 := congrArg M3.m20 hcof
+  have k21 := congrArg M3.m21 hcof
+  have k22 := congrArg M3.m22 hcof
+  simp only [M3.cof] at k00 k01 k02 k10 k11 k12 k20 k21 k22
+  have hdet : m.m00 * (m.m11 * m.m22 - m.m12 * m.m21) + m.m01 * (m.m12 * m.m20 - m.m10 * m.m22)
+      + m.m02 * (m.m10 * m.m21 - m.m11 * m.m20) = 1 := by
+    linear_combination (1 / 3 : ℝ) * (c00 + c11 + c22 + m.m00 * k00 + m.m01 * k01 + m.m02 * k02
+      + m.m10 * k10 + m.m11 * k11 + m.m12 * k12 + m.m20 * k20 + m.m21 * k21 + m.m22 * k22)
+  refine ⟨htm, ?_, hcof⟩
+  apply M3.ext' <;> simp only [M3.mul, M3.transpose, M3.one, lit0, lit1]
+  · linear_combination hdet - m.m00 * k00 - m.m01 * k01 - m.m02 * k02
+  · linear_combination - m.m10 * k00 - m.m11 * k01 - m.m12 * k02
+  · linear_combination - m.m20 * k00 - m.m21 * k01 - m.m22 * k02
+  · linear_combination - m.m10 * k00 - m.m11 * k01 - m.m12 * k02
+  · linear_combination hdet - m.m10 * k10 - m.m11 * k11 - m.m12 * k12
+  · linear_combination - m.m20 * k10 - m.m21 * k11 - m.m22 * k12
+  · linear_combination - m.m20 * k00 - m.m21 * k01 - m.m22 * k02
+  · linear_combination - m.m20 * k10 - m.m21 * k11 - m.m22 * k12
+  · linear_combination hdet - m.m20 * k20 - m.m21 * k21 - m.m22 * k22
+
+/-- two orthonormal vectors and their cross product are the columns of a rotation matrix -/
+theorem IsRot_ofColumns {a b : V3 ℝ} (ha : a.dot a = 1) (hb : b.dot b = 1) (hab : a.dot b = 0) :
+    IsRot (M3.ofColumns a b (a.cross b)) := by
+  simp only [V3.dot] at ha hb hab
+  apply isRot_of_tm_cof
+  · apply M3.ext' <;> simp only [M3.mul, M3.transpose, M3.ofColumns, M3.one, V3.cross, lit0, lit1]
+    · linear_combination ha
+    · linear_combination hab
+    · ring
+    · linear_combination hab
+    · linear_combination hb
+    · ring
+    · ring
+    · ring
+    · linear_combination (b.x * b.x + b.y * b.y + b.z * b.z) * ha + hb
+        - (a.x * b.x + a.y * b.y + a.z * b.z) * hab
+  · apply M3.ext' <;> simp only [M3.cof, M3.ofColumns, V3.cross]
+    · linear_combination a.x * hb - b.x * hab
+    · linear_combination b.x * ha - a.x * hab
+    · ring
+    · linear_combination a.y * hb - b.y * hab
+    · linear_combination b.y * ha - a.y * hab
+    · ring
+    · linear_combination a.z * hb - b.z * hab
+    · linear_combination b.z * ha - a.z * hab
+    · ring
+
+/-- `basisOf v1 v2` is a rotation matrix when `v1 × v2 ≠ 0` -/
+theorem basisOf_isRot {v1 v2 : V3 ℝ} (h : (V3.cross v1 v2).norm ≠ 0) : IsRot (basisOf v1 v2) := by
+  have h1 := V3.norm_left_ne_zero_of_cross h
+  unfold basisOf
+  apply IsRot_ofColumns (V3.dot_normalize_self h1) (V3.dot_normalize_self h)
+  rw [V3.dot_normalize_normalize, V3.dot_cross_self_left, zero_div]
+
+theorem basisOf_col0 (v1 v2 : V3 ℝ) : (basisOf v1 v2).col0 = v1.normalize := rfl
+theorem basisOf_col1 (v1 v2 : V3 ℝ) : (basisOf v1 v2).col1 = (V3.cross v1 v2).normalize := rfl
+
+/-! ### Rotations commute with the basis construction -/
+
+theorem isRot_cross_mulVec {m : M3 ℝ} (h : IsRot m) (a b : V3 ℝ) :
+    (m.mulVec a).cross (m.mulVec b) = m.mulVec (a.cross b) := by
+  rw [M3.cross_mulVec, h.cof]
+
+theorem isRot_norm_mulVec {m : M3 ℝ} (h : IsRot m) (a : V3 ℝ) : (m.mulVec a).norm = a.norm := by
+  simp only [V3.norm, h.normSq_mulVec a]
+
+theorem M3.mulVec_divs (m : M3 ℝ) (a : V3 ℝ) (s : ℝ) : m.mulVec (a.divs s) = (m.mulVec a).divs s := by
+  apply V3.ext' <;> simp only [M3.mulVec, V3.divs] <;> ring
+
+theorem M3.mulVec_sub (m : M3 ℝ) (a b : V3 ℝ) : m.mulVec (a.sub b) = (m.mulVec a).sub (m.mulVec b) := by
+  apply V3.ext' <;> simp only [M3.mulVec, V3.sub] <;> ring
+
+theorem isRot_normalize_mulVec {m : M3 ℝ} (h : IsRot m) (a : V3 ℝ) :
+    (m.mulVec a).normalize = m.mulVec a.normalize := by
+  unfold V3.normalize
+  rw [isRot_norm_mulVec h, M3.mulVec_divs]
+
+theorem basisOf_mulVec {m : M3 ℝ} (h : IsRot m) (v1 v2 : V3 ℝ) :
+    basisOf (m.mulVec v1) (m.mulVec v2) = m.mul (basisOf v1 v2) := by
+  unfold basisOf
+  simp only [isRot_cross_mulVec h, isRot_normalize_mulVec h, M3.mul_ofColumns]
+
+/-! ### The frame tolerance -/
+
+theorem nonIsoTol_eq : (nonIsoTol : ℝ) = 5764607523034235 / 1152921504606846976 := by
+  show ((Gen.nonIsoTolM : ℤ) : ℝ) * (2 : ℝ) ^ Gen.nonIsoTolE = _
+  unfold Gen.nonIsoTolM Gen.nonIsoTolE
+  norm_num
+
+/-! ### Columns of a rotation matrix -/
+
+theorem mulVec_ex (m : M3 ℝ) : m.mulVec ⟨1, 0, 0⟩ = m.col0 := by
+  apply V3.ext' <;> simp only [M3.mulVec, M3.col0] <;> ring
+
+theorem mulVec_ey (m : M3 ℝ) : m.mulVec ⟨0, 1, 0⟩ = m.col1 := by
+  apply V3.ext' <;> simp only [M3.mulVec, M3.col1] <;> ring
+
+theorem transpose_mulVec_col0 {m : M3 ℝ} (h : IsRot m) : m.transpose.mulVec m.col0 = ⟨1, 0, 0⟩ := by
+  have e := h.eqs
+  apply V3.ext' <;> simp only [M3.mulVec, M3.transpose, M3.col0]
+  · linear_combination e.hc00
+  · linear_combination e.hc01
+  · linear_combination e.hc02
+
+theorem transpose_mulVec_col1 {m : M3 ℝ} (h : IsRot m) : m.transpose.mulVec m.col1 = ⟨0, 1, 0⟩ := by
+  have e := h.eqs
+  apply V3.ext' <;> simp only [M3.mulVec, M3.transpose, M3.col1]
+  · linear_combination e.hc01
+  · linear_combination e.hc11
+  · linear_combination e.hc12
+
+/-! ### Jacobian: `J x` as a fold, and its linearity -/
+
+end Opw.MiscReal
+
+namespace Opw
+theorem Col.ext' {a b : Col ℝ} (h1 : a.lin = b.lin) (h2 : a.ang = b.ang) : a = b := by
+  cases a; cases b; simp_all
+
+/-- componentwise sum of two 6-vectors -/
+noncomputable def Col.add (a b : Col ℝ) : Col ℝ := ⟨a.lin.add b.lin, a.ang.add b.ang⟩
+/-- a 6-vector times a scalar -/
+noncomputable def Col.scale (a : Col ℝ) (c : ℝ) : Col ℝ := ⟨a.lin.scale c, a.ang.scale c⟩
+/-- the zero 6-vector -/
+noncomputable def Col.zero : Col ℝ := ⟨V3.zero, V3.zero⟩
+/-- Euclidean inner product of two 6-vectors -/
+noncomputable def Col.dot (a b : Col ℝ) : ℝ := a.lin.dot b.lin + a.ang.dot b.ang
+end Opw
+
+namespace Opw.MiscReal
+open Opw Opw.Limits Opw.C07 Real
+
+/-- the accumulation step of `jacMulVec` -/
+noncomputable def jacStep (acc : Col ℝ) (cx : Col ℝ × ℝ) : Col ℝ :=
+  ⟨acc.lin.add (cx.1.lin.scale cx.2), acc.ang.add (cx.1.ang.scale cx.2)⟩
+
+theorem jacMulVec_eq_foldl (jac : List (Col ℝ)) (x : List ℝ) :
+    jacMulVec jac x = (jac.zip x).foldl jacStep Col.zero := rfl
+
+theorem jacStep_add (a b : Col ℝ) (cx : Col ℝ × ℝ) : jacStep (a.add b) cx = a.add (jacStep b cx) := by
+  apply Col.ext' <;> apply V3.ext' <;> simp only [jacStep, Col.add, V3.add, V3.scale] <;> ring
+
+theorem foldl_jacStep_add (l : List (Col ℝ × ℝ)) (a b : Col ℝ) :
+    l.foldl jacStep (a.add b) = a.add (l.foldl jacStep b) := by
+  induction l generalizing b with
+  | nil => rfl
+  | cons cx l ih => simp only [List.foldl_cons]; rw [jacStep_add, ih]
+
+theorem Col.add_zero (a : Col ℝ) : a.add Col.zero = a := by
+  apply Col.ext' <;> apply V3.ext' <;> simp only [Col.add, Col.zero, V3.add, V3.zero, lit0_real] <;> ring
+
+theorem Col.zero_add (a : Col ℝ) : Col.zero.add a = a := by
+  apply Col.ext' <;> apply V3.ext' <;> simp only [Col.add, Col.zero, V3.add, V3.zero, lit0_real] <;> ring
+
+theorem jacStep_zero (c : Col ℝ) (a : ℝ) : jacStep Col.zero (c, a) = c.scale a := by
+  apply Col.ext' <;> apply V3.ext' <;>
+    simp only [jacStep, Col.scale, Col.zero, V3.add, V3.scale, V3.zero, lit0_real] <;> ring
+
+theorem jacMulVec_nil_left (x : List ℝ) : jacMulVec [] x = Col.zero := rfl
+theorem jacMulVec_nil_right (jac : List (Col ℝ)) : jacMulVec jac [] = Col.zero := by
+  rw [jacMulVec_eq_foldl, List.zip_nil_right]; rfl
+
+/-- recursion: `J x = x₀ c₀ + J' x'` -/
+theorem jacMulVec_cons (c : Col ℝ) (cs : List (Col ℝ)) (a : ℝ) (xs : List ℝ) :
+    jacMulVec (c :: cs) (a :: xs) = (c.scale a).add (jacMulVec cs xs) := by
+  rw [jacMulVec_eq_foldl, jacMulVec_eq_foldl, List.zip_cons_cons, List.foldl_cons, jacStep_zero,
+    ← Col.add_zero (c.scale a), foldl_jacStep_add, Col.add_zero]
+
+theorem jacMulVec_add (jac : List (Col ℝ)) (x y : List ℝ) (h : x.length = y.length) :
+    jacMulVec jac (List.zipWith (· + ·) x y) = (jacMulVec jac x).add (jacMulVec jac y) := by
+  induction jac generalizing x y with
+  | nil => simp only [jacMulVec_nil_left, Col.add_zero]
+  | cons c cs ih =>
+    cases x with
+    | nil =>
+      cases y with
+      | nil => simp only [List.zipWith_nil_left, jacMulVec_nil_right, Col.add_zero]
+      | cons b ys => simp at h
+    | cons a xs =>
+      cases y with
+      | nil => simp at h
+      | cons b ys =>
+        have h' : xs.length = ys.length := by simpa using h
+        rw [List.zipWith_cons_cons, jacMulVec_cons, jacMulVec_cons, jacMulVec_cons, ih xs ys h']
+        apply Col.ext' <;> apply V3.ext' <;> simp only [Col.add, Col.scale, V3.add, V3.scale] <;> ring
+
+theorem jacMulVec_smul (jac : List (Col ℝ)) (k : ℝ) (x : List ℝ) :
+    jacMulVec jac (x.map (k * ·)) = (jacMulVec jac x).scale k := by
+  induction jac generalizing x with
+  | nil =>
+    simp only [jacMulVec_nil_left]
+    apply Col.ext' <;> apply V3.ext' <;> simp only [Col.scale, Col.zero, V3.scale, V3.zero, lit0_real] <;> ring
+  | cons c cs ih =>
+    cases x with
+    | nil =>
+      simp only [List.map_nil, jacMulVec_nil_right]
+      apply Col.ext' <;> apply V3.ext' <;> simp only [Col.scale, Col.zero, V3.scale, V3.zero, lit0_real] <;> ring
+    | cons a xs =>
+      rw [List.map_cons, jacMulVec_cons, jacMulVec_cons, ih xs]
+      apply Col.ext' <;> apply V3.ext' <;> simp only [Col.add, Col.scale, V3.add, V3.scale] <;> ring
+
+/-- `Σ τᵢ xᵢ` -/
+noncomputable def listDot (a b : List ℝ) : ℝ := (List.zipWith (· * ·) a b).sum
+
+/-- `(Jᵀ F) · x = F · (J x)`: `torquesFromVector` is the transpose of `jacMulVec` -/
+theorem torques_dot (jac : List (Col ℝ)) (f : Col ℝ) (x : List ℝ) :
+    listDot (torquesFromVector jac f) x = Col.dot f (jacMulVec jac x) := by
+  induction jac generalizing x with
+  | nil =>
+    simp only [torquesFromVector, List.map_nil, listDot, List.zipWith_nil_left, List.sum_nil,
+      jacMulVec_nil_left, Col.dot, Col.zero, V3.dot, V3.zero, lit0_real]
+    ring
+  | cons c cs ih =>
+    cases x with
+    | nil =>
+      simp only [listDot, List.zipWith_nil_right, List.sum_nil, jacMulVec_nil_right, Col.dot,
+        Col.zero, V3.dot, V3.zero, lit0_real]
+      ring
+    | cons a xs =>
+      have ih' := ih xs
+      rw [jacMulVec_cons]
+      simp only [torquesFromVector, List.map_cons, listDot, List.zipWith_cons_cons, List.sum_cons] at ih' ⊢
+      rw [ih']
+      simp only [Col.dot, Col.add, Col.scale, V3.dot, V3.add, V3.scale]
+      ring
+
+/-! ### Perturbing joint 1 rotates the whole chain about the world z axis -/
+
+/-- joint vector with the first entry replaced -/
+noncomputable def withJ1 (q : J6 ℝ) (v : ℝ) : J6 ℝ := ⟨v, q.j2, q.j3, q.j4, q.j5, q.j6⟩
+
+theorem set0_eq (q : J6 ℝ) (v : ℝ) : q.set 0 v = withJ1 q v := rfl
+
+theorem rz_mulVec_z (s c z : ℝ) : (M3.rz s c).mulVec ⟨0, 0, z⟩ = ⟨0, 0, z⟩ := by
+  apply V3.ext' <;> simp only [M3.mulVec, M3.rz, lit0, lit1] <;> ring
+
+theorem rot1_perturb (q : J6 ℝ) (e : ℝ) :
+    rot1 (withJ1 q (q.j1 + e)) = (M3.rz (Real.sin e) (Real.cos e)).mul (rot1 q) := by
+  unfold rot1
+  rw [M3.rz_mul_rz]
+  show M3.rz (Real.sin (q.j1 + e)) (Real.cos (q.j1 + e)) = _
+  rw [Real.sin_add, Real.cos_add]
+  congr 1 <;> ring
+
+theorem rot2_perturb (q : J6 ℝ) (e : ℝ) :
+    rot2 (withJ1 q (q.j1 + e)) = (M3.rz (Real.sin e) (Real.cos e)).mul (rot2 q) := by
+  unfold rot2; rw [rot1_perturb]; exact M3.mul_assoc _ _ _
+theorem rot3_perturb (q : J6 ℝ) (e : ℝ) :
+    rot3 (withJ1 q (q.j1 + e)) = (M3.rz (Real.sin e) (Real.cos e)).mul (rot3 q) := by
+  unfold rot3; rw [rot2_perturb]; exact M3.mul_assoc _ _ _
+theorem rot4_perturb (q : J6 ℝ) (e : ℝ) :
+    rot4 (withJ1 q (q.j1 + e)) = (M3.rz (Real.sin e) (Real.cos e)).mul (rot4 q) := by
+  unfold rot4; rw [rot3_perturb]; exact M3.mul_assoc _ _ _
+theorem rot5_perturb (q : J6 ℝ) (e : ℝ) :
+    rot5 (withJ1 q (q.j1 + e)) = (M3.rz (Real.sin e) (Real.cos e)).mul (rot5 q) := by
+  unfold rot5; rw [rot4_perturb]; exact M3.mul_assoc _ _ _
+theorem rot6_perturb (q : J6 ℝ) (e : ℝ) :
+    rot6 (withJ1 q (q.j1 + e)) = (M3.rz (Real.sin e) (Real.cos e)).mul (rot6 q) := by
+  unfold rot6; rw [rot5_perturb]; exact M3.mul_assoc _ _ _
+
+theorem org1_perturb (p : Params ℝ) (q : J6 ℝ) (e : ℝ) :
+    org1 p (withJ1 q (q.j1 + e)) = (M3.rz (Real.sin e) (Real.cos e)).mulVec (org1 p q) := by
+  unfold org1; rw [rz_mulVec_z]
+theorem org2_perturb (p : Params ℝ) (q : J6 ℝ) (e : ℝ) :
+    org2 p (withJ1 q (q.j1 + e)) = (M3.rz (Real.sin e) (Real.cos e)).mulVec (org2 p q) := by
+  unfold org2; rw [org1_perturb, rot1_perturb, M3.mulVec_mulVec, ← M3.mulVec_add]
+theorem org3_perturb (p : Params ℝ) (q : J6 ℝ) (e : ℝ) :
+    org3 p (withJ1 q (q.j1 + e)) = (M3.rz (Real.sin e) (Real.cos e)).mulVec (org3 p q) := by
+  unfold org3; rw [org2_perturb, rot2_perturb, M3.mulVec_mulVec, ← M3.mulVec_add]
+theorem org4_perturb (p : Params ℝ) (q : J6 ℝ) (e : ℝ) :
+    org4 p (withJ1 q (q.j1 + e)) = (M3.rz (Real.sin e) (Real.cos e)).mulVec (org4 p q) := by
+  unfold org4; rw [org3_perturb, rot3_perturb, M3.mulVec_mulVec, ← M3.mulVec_add]
+theorem org5_perturb (p : Params ℝ) (q : J6 ℝ) (e : ℝ) :
+    org5 p (withJ1 q (q.j1 + e)) = (M3.rz (Real.sin e) (Real.cos e)).mulVec (org5 p q) := by
+  unfold org5; rw [org4_perturb, rot4_perturb, M3.mulVec_mulVec, ← M3.mulVec_add]
+theorem org6_perturb (p : Params ℝ) (q : J6 ℝ) (e : ℝ) :
+    org6 p (withJ1 q (q.j1 + e)) = (M3.rz (Real.sin e) (Real.cos e)).mulVec (org6 p q) := by
+  unfold org6; rw [org5_perturb, rot5_perturb, M3.mulVec_mulVec, ← M3.mulVec_add]
+
+/-- θ-space image of a joint-1 perturbation: θ₁ moves by `e · sign₁` -/
+theorem thetaOf_perturb (p : Params ℝ) (j : J6 ℝ) (e : ℝ) :
+    thetaOf p (withJ1 j (j.j1 + e)) = withJ1 (thetaOf p j) ((thetaOf p j).j1 + e * p.signs.j1) := by
+  unfold thetaOf withJ1
+  congr 1
+  ring
+
+/-! ### Scaled axis of a rotation about z -/
+
+theorem arg_cos_abs_sin (h : ℝ) (hh : |h| < π / 2) :
+    Complex.arg ⟨Real.cos h, |Real.sin h|⟩ = |h| := by
+  have hpi := Real.pi_pos
+  have h1 : (⟨Real.cos h, |Real.sin h|⟩ : ℂ) = Complex.cos (|h| : ℝ) + Complex.sin (|h| : ℝ) * Complex.I := by
+    apply Complex.ext
+    · simp [← Complex.ofReal_cos, ← Complex.ofReal_sin]
+    · simp only [Complex.add_im, Complex.mul_im, Complex.I_re, Complex.I_im,
+        ← Complex.ofReal_cos, ← Complex.ofReal_sin, Complex.ofReal_re, Complex.ofReal_im]
+      rcases abs_cases h with ⟨e, h0⟩ | ⟨e, h0⟩
+      · rw [e, abs_of_nonneg (Real.sin_nonneg_of_nonneg_of_le_pi h0 (by linarith [(abs_lt.mp hh).2]))]; ring
+      · rw [e, Real.sin_neg, abs_of_nonpos (Real.sin_nonpos_of_nonpos_of_neg_pi_le h0.le (by linarith [(abs_lt.mp hh).1]))]; ring
+  rw [h1, Complex.arg_cos_add_sin_mul_I]
+  constructor
+  · linarith [abs_nonneg h]
+  · linarith
+
+theorem scaledAxis_rotZ_core (σ h : ℝ) (hσ : σ = 1 ∨ σ = -1) (hh : |h| < π / 2) :
+    (⟨σ * Real.cos h, 0, 0, σ * Real.sin h⟩ : Quat ℝ).scaledAxis = ⟨0, 0, 2 * h⟩ := by
+  have hc : 0 < Real.cos h :=
+    Real.cos_pos_of_mem_Ioo ⟨by linarith [(abs_lt.mp hh).1], (abs_lt.mp hh).2⟩
+  have hv : (if σ * Real.cos h ≥ 0 then (⟨0, 0, σ * Real.sin h⟩ : V3 ℝ)
+      else (⟨0, 0, σ * Real.sin h⟩ : V3 ℝ).neg) = ⟨0, 0, Real.sin h⟩ := by
+    rcases hσ with rfl | rfl
+    · rw [if_pos (by linarith)]; simp
+    · rw [if_neg (by linarith)]; simp [V3.neg]
+  have hang : (⟨σ * Real.cos h, 0, 0, σ * Real.sin h⟩ : Quat ℝ).angle = |h| * 2 := by
+    have hn : (⟨0, 0, σ * Real.sin h⟩ : V3 ℝ).norm = |Real.sin h| := by
+      rw [V3.norm_eq, V3.normSq_eq]
+      simp only
+      rw [show (0:ℝ) * 0 + 0 * 0 + σ * Real.sin h * (σ * Real.sin h) = (Real.sin h) ^ 2 by
+        rcases hσ with rfl | rfl <;> ring]
+      exact Real.sqrt_sq_eq_abs _
+    have hw : |σ * Real.cos h| = Real.cos h := by
+      rcases hσ with rfl | rfl
+      · rw [one_mul, abs_of_pos hc]
+      · rw [neg_one_mul, abs_neg, abs_of_pos hc]
+    simp only [Quat.angle, Quat.imag, natan2_real, nabs_real, lit2_real]
+    rw [hn, hw, arg_cos_abs_sin h hh]
+  unfold Quat.scaledAxis
+  simp only [Quat.imag, lit0_real]
+  rw [hv, hang]
+  have hsq : (⟨0, 0, Real.sin h⟩ : V3 ℝ).normSq = Real.sin h * Real.sin h := by
+    rw [V3.normSq_eq]; ring
+  rw [hsq]
+  by_cases h0 : h = 0
+  · subst h0
+    rw [Real.sin_zero, if_neg (by norm_num)]
+    apply V3.ext' <;> simp only [V3.zero, lit0_real]
+    ring
+  · have hpi := Real.pi_pos
+    have hs : Real.sin h ≠ 0 := by
+      intro hs
+      rcases lt_or_gt_of_ne h0 with hl | hl
+      · have := Real.sin_neg_of_neg_of_neg_pi_lt hl (by linarith [(abs_lt.mp hh).1]); linarith
+      · have := Real.sin_pos_of_pos_of_lt_pi hl (by linarith [(abs_lt.mp hh).2]); linarith
+    rw [if_pos (mul_self_pos.mpr hs)]
+    simp only [nsqrt_real]
+    rw [← sq, Real.sqrt_sq_eq_abs]
+    apply V3.ext' <;> simp only [V3.divs, V3.scale]
+    · ring
+    · ring
+    · rcases lt_or_gt_of_ne h0 with hl | hl
+      · have := Real.sin_neg_of_neg_of_neg_pi_lt hl (by linarith [(abs_lt.mp hh).1])
+        rw [abs_of_neg this, abs_of_neg hl]; field_simp
+      · have := Real.sin_pos_of_pos_of_lt_pi hl (by linarith [(abs_lt.mp hh).2])
+        rw [abs_of_pos this, abs_of_pos hl]; field_simp
+
+/-- scaled axis of a unit quaternion whose rotation matrix is `Rz(φ)`, `|φ| < π`: it is `φ ẑ`
+(whichever of the two quaternions `± rotZ φ` it is) -/
+theorem scaledAxis_of_toMat_rz (r : Quat ℝ) (hr : r.normSq = 1) (φ : ℝ) (hφ : |φ| < π)
+    (hm : r.toMat = M3.rz (Real.sin φ) (Real.cos φ)) : r.scaledAxis = ⟨0, 0, φ⟩ := by
+  have hh : |φ / 2| < π / 2 := by
+    rw [abs_div, abs_of_pos (by norm_num : (0:ℝ) < 2)]; linarith
+  have e2 : 2 * (φ / 2) = φ := by ring
+  rcases Quat.eq_or_eq_neg_of_toMat_eq r (Quat.rotZ φ) hr (Quat.normSq_rotZ φ)
+      (by rw [hm, Quat.toMat_rotZ]) with h | h
+  · have := scaledAxis_rotZ_core 1 (φ / 2) (Or.inl rfl) hh
+    rw [one_mul, one_mul, e2] at this
+    rw [h, Quat.rotZ_eq]; exact this
+  · have := scaledAxis_rotZ_core (-1) (φ / 2) (Or.inr rfl) hh
+    rw [e2] at this
+    rw [h, Quat.rotZ_eq]
+    have e : (Quat.neg ⟨Real.cos (φ / 2), 0, 0, Real.sin (φ / 2)⟩ : Quat ℝ) =
+        ⟨-1 * Real.cos (φ / 2), 0, 0, -1 * Real.sin (φ / 2)⟩ := by
+      apply Quat.ext' <;> simp only [Quat.neg] <;> ring
+    rw [e]; exact this
+
 end Opw.MiscReal
